@@ -183,6 +183,32 @@ def check_jitter(ctx):
         st = stores[0][0]
         jn = parent(draws[0]).targets[0].id if isinstance(parent(draws[0]), ast.Assign) else None
         v = norm.subst(st.value, {k: e for k, e in le.items() if k != jn})
+        if isinstance(v, ast.Name):
+            # `arrival = <sum>; row['arrival_seconds'] = arrival`: the value stored is what the statement just before it bound
+            pb = parent(st)
+            for _fld in ("body", "orelse", "finalbody"):
+                blk = getattr(pb, _fld, None)
+                if isinstance(blk, list) and st in blk and blk.index(st) > 0:
+                    prev = blk[blk.index(st) - 1]
+                    if isinstance(prev, ast.Assign) and len(prev.targets) == 1 and norm.is_name(prev.targets[0], v.id):
+                        v = norm.subst(prev.value, {k: e for k, e in le.items() if k != jn})
+                    break
+        if jn is None:
+            # the draw is not bound to a name of its own (`float(row[..]) + rng.uniform(0, delta)`): it stands for itself in the sum
+            import copy as _copy
+            dtxt = norm.U(draws[0])
+
+            class _R(ast.NodeTransformer):
+                hits = 0
+
+                def visit_Call(self, n):
+                    if norm.U(n) == dtxt:
+                        _R.hits += 1
+                        return ast.copy_location(ast.Name(id="draw__", ctx=ast.Load()), n)
+                    return self.generic_visit(n)
+            v2 = _R().visit(_copy.deepcopy(v))
+            if _R.hits == 1:
+                jn, v = "draw__", v2
         okv = jn is not None and ratform.same(v, ratform.parse(f"float({rowv}['arrival_seconds']) + {jn}"))
         ctx.ob(4, "K7", "the new arrival is the row's own arrival plus the offset", okv, f, st, construct="jittered = original + jitter", detail=f"{norm.U(v)}")
         ceq = g.control_equivalent(poolmod.stmt_of(draws[0]), st, rl)
